@@ -130,6 +130,16 @@ def make_case(spec, i, tag="C05", nres=None, p_read=0.35):
         if not hs:
             break
         hsel = r.choice(hs)
+        if r.random() < 0.06 and not (info.strategy == "memory" and ms.handles[hsel].root in adopters):
+            # a multi-item mutator with one item that must be rejected: whatever part of it is applied, what a
+            # read shows afterwards must be what later reads show and what the outermost exit writes
+            st = gen.gen_rejected(g, ms, hsel)
+            if st is not None:
+                steps.append(st)
+                # the generator cannot know how much was applied: it keeps its own state and stops following
+                # the children below the target (the run-time model resynchronises from what a read shows)
+                ms._detach_same_parent(ms.handles[hsel].root, ms.handles[hsel].path + list(st["path"]), None, True)
+            continue
         ro = info.strategy == "memory" and ms.handles[hsel].root in adopters and ms.backend_count == 0
         steps.extend(gen.gen_program(g, ms, 1, p_read=1.0 if ro else p_read, depth=2, handles=[hsel]))
     while depth > 0:
